@@ -2,6 +2,7 @@ package props
 
 import (
 	"go/token"
+	"go/types"
 	"sort"
 	"strings"
 
@@ -161,19 +162,41 @@ func c11gNoWriteAfterHash(c *eng.Ctx) {
 // for response data, each read from the matched mount's cache under the key
 // under which MountEntry.SyncCache publishes the corresponding Config field
 func c11gExemptionLists(c *eng.Ctx) {
-	for _, fn := range []string{"audit.(*AuditFormatter).FormatRequest", "audit.(*AuditFormatter).FormatResponse"} {
-		f := c.Fn(fn)
-		if f == nil {
+	// every call of the two data sanitisers in package audit (the formatters or a helper extracted
+	// from them): the list is the matching field of a LogInput parameter
+	c.Clause("R5", "C11.4")
+	nReq, nResp := 0, 0
+	listOf := func(v ssa.Value) string { // "" or the LogInput field v is loaded from (of a parameter)
+		for _, name := range []string{"NonHMACReqDataKeys", "NonHMACRespDataKeys"} {
+			if ld, base := c14LoadOfField(v, name); ld != nil && structTypeName(base.Type()) == "logical.LogInput" {
+				if _, isParam := base.(*ssa.Parameter); isParam {
+					return name
+				}
+			}
+		}
+		return ""
+	}
+	for _, f := range c.P.Funcs {
+		if !eng.InPkg(f, "audit") || strings.Contains(eng.FuncName(eng.TopFunc(f)), "esting") {
 			continue
 		}
-		c.Clause("R5", "C11.4")
-		for _, h := range eng.Calls(f, `^audit\.HashRequest$`) {
-			c.Prov(f, "exemption list for request data", h, h.Common().Args[3], `^field:in\.NonHMACReqDataKeys$`)
-		}
-		for _, h := range eng.Calls(f, `^audit\.HashResponse$`) {
-			c.Prov(f, "exemption list for response data", h, h.Common().Args[3], `^field:in\.NonHMACRespDataKeys$`)
+		for _, h := range eng.Calls(f, `^audit\.Hash(Request|Response)$`) {
+			want, site := "NonHMACReqDataKeys", "exemption list for request data"
+			if strings.HasSuffix(eng.CalleeName(h.Common()), "HashResponse") {
+				want, site = "NonHMACRespDataKeys", "exemption list for response data"
+				nResp++
+			} else {
+				nReq++
+			}
+			if got := listOf(h.Common().Args[3]); got == want {
+				c.OK(f, "prov{"+site+"}", h.Pos(), "LogInput."+want+" of the input being formatted")
+			} else {
+				c.Violation(f, "prov{"+site+"}", h.Pos(), "the sanitiser is given "+eng.ExprDeep(h.Common().Args[3])+" instead of LogInput."+want+" of the input being formatted: fields exempted for the other direction (or not at all) are left in plaintext", nil)
+			}
 		}
 	}
+	c.Floor(nil, "HashRequest calls in package audit", nReq, 2)
+	c.Floor(nil, "HashResponse calls in package audit", nResp, 1)
 	// key -> Config field, from SyncCache
 	sc := c.Fn("routing.(*MountEntry).SyncCache")
 	if sc == nil {
@@ -206,8 +229,11 @@ func c11gExemptionLists(c *eng.Ctx) {
 		if f == nil {
 			continue
 		}
-		for _, lr := range eng.Calls(f, `^vault\.\(\*AuditBroker\)\.Log(Request|Response)$`) {
-			in := lr.Common().Args[2]
+		for _, au := range append(c11BrokerCalls(f, "LogRequest"), c11BrokerCalls(f, "LogResponse")...) {
+			lr, in := au.call, au.in
+			if in == nil {
+				continue // forwarding closure whose argument could not be traced: reported by C11.1/C11.2
+			}
 			for li, cf := range want {
 				for _, v := range eng.StructLitField(in, li) {
 					n++
@@ -273,10 +299,7 @@ func c11gResponseFrozenAfterAudit(c *eng.Ctx) {
 		return
 	}
 	c.Clause("R3", "C11.2")
-	var lrs []ssa.Instruction
-	for _, lr := range eng.Calls(f, `^vault\.\(\*AuditBroker\)\.LogResponse$`) {
-		lrs = append(lrs, lr)
-	}
+	lrs := c11AuditInstrs(c11BrokerCalls(f, "LogResponse"))
 	writes := eng.Instrs(f, c11gWritesResponse)
 	c.Floor(f, "writes into a logical.Response before the audit", len(writes), 2)
 	c.NotAfter(f, "AuditBroker.LogResponse", lrs, "write into a logical.Response (fields, auth block, data map)", writes)
@@ -571,4 +594,349 @@ func c11gCachePublishedAfterConfigChange(c *eng.Ctx) {
 	c.Clause("R3", "C11.2")
 	c.Floor(nil, "assignments of a live mount entry's Config / exemption lists", n, 4)
 	c.Floor(nil, "exemption-list assignments with a deferred restore", nRestore, 2)
+}
+
+// ===================== shape-independent helpers (ROBUST.md) =====================
+
+// c11Audit is one place where fn hands an entry to the audit broker: the call
+// instruction in fn and the LogInput it passes. The call is either the direct
+// method call or a call of a local closure that does nothing but forward its
+// arguments to the broker method and return its error.
+type c11Audit struct {
+	call ssa.CallInstruction
+	in   ssa.Value
+}
+
+func c11BrokerCalls(fn *ssa.Function, method string) []c11Audit {
+	const recv = "vault.(*AuditBroker)."
+	var out []c11Audit
+	for _, b := range fn.Blocks {
+		for _, ins := range b.Instrs {
+			cl, ok := ins.(*ssa.Call)
+			if !ok {
+				continue
+			}
+			if eng.CalleeName(&cl.Call) == recv+method && len(cl.Call.Args) > 2 {
+				out = append(out, c11Audit{cl, cl.Call.Args[2]})
+				continue
+			}
+			mc, ok := cl.Call.Value.(*ssa.MakeClosure)
+			if !ok {
+				continue
+			}
+			g, ok := mc.Fn.(*ssa.Function)
+			if !ok {
+				continue
+			}
+			// forwarder: exactly one broker call, and every return hands on its result
+			inner := eng.Calls(g, `^vault\.\(\*AuditBroker\)\.`+method+`$`)
+			if len(inner) != 1 {
+				continue
+			}
+			ic, ok := inner[0].(*ssa.Call)
+			if !ok {
+				continue
+			}
+			fwd := true
+			for _, r := range eng.Returns(g) {
+				if len(r.Results) != 1 || r.Results[0] != ssa.Value(ic) {
+					fwd = false
+				}
+			}
+			if !fwd || len(ic.Call.Args) < 3 {
+				continue
+			}
+			var in ssa.Value
+			if p, ok := ic.Call.Args[2].(*ssa.Parameter); ok {
+				for k, gp := range g.Params {
+					if gp == p && k < len(cl.Call.Args) {
+						in = cl.Call.Args[k]
+					}
+				}
+			}
+			out = append(out, c11Audit{cl, in})
+		}
+	}
+	return out
+}
+
+// c11AuditGuard: "the broker call executed and returned nil" over the given audits.
+func c11AuditGuard(desc string, audits []c11Audit) eng.Guard {
+	g := eng.Guard{Desc: desc}
+	for _, a := range audits {
+		g.Edges = append(g.Edges, eng.CallOKEdges(a.call)...)
+		g.Pass = append(g.Pass, a.call)
+	}
+	return g
+}
+
+func c11AuditInstrs(audits []c11Audit) []ssa.Instruction {
+	var out []ssa.Instruction
+	for _, a := range audits {
+		out = append(out, a.call)
+	}
+	return out
+}
+
+// c11CellLeaves is c11PhiLeaves that also reads local memory cells (named
+// results of a function with a defer): a load of a local is replaced by the
+// values that can be in the cell when the load executes. escaped: some cell's
+// address is visible to other code, the leaves are a lower bound.
+func c11CellLeaves(v ssa.Value, out map[ssa.Value]bool) (escaped bool) {
+	seen := map[ssa.Value]bool{}
+	var walk func(v ssa.Value)
+	walk = func(v ssa.Value) {
+		if v == nil || seen[v] {
+			return
+		}
+		seen[v] = true
+		switch x := v.(type) {
+		case *ssa.Phi:
+			for _, e := range x.Edges {
+				walk(e)
+			}
+			return
+		case *ssa.UnOp:
+			if a, ok := x.X.(*ssa.Alloc); ok && x.Op == token.MUL {
+				vals, esc := eng.ReachingStores(a, x)
+				if esc {
+					escaped = true
+				}
+				if len(vals) > 0 {
+					for _, s := range vals {
+						if s != nil {
+							walk(s)
+						}
+					}
+					return
+				}
+			}
+		}
+		out[v] = true
+	}
+	walk(v)
+	return escaped
+}
+
+// c11ZeroTestEdges returns, for every branch of f that compares a subject value
+// with zero/false (x, !x, x == 0, x != 0, x > 0, 0 < x, x <= 0, x >= 1, …), the
+// edge on which the subject is non-zero (nonzero=true) or zero (nonzero=false).
+func c11ZeroTestEdges(f *ssa.Function, subject func(ssa.Value) bool, nonzero bool) []eng.Edge {
+	isZero := func(v ssa.Value) bool {
+		k, ok := v.(*ssa.Const)
+		if !ok {
+			return false
+		}
+		s := eng.Expr(k)
+		return s == "0" || s == "false"
+	}
+	isOne := func(v ssa.Value) bool { k, ok := v.(*ssa.Const); return ok && eng.Expr(k) == "1" }
+	var out []eng.Edge
+	for _, b := range f.Blocks {
+		ifi := eng.IfOf(b)
+		if ifi == nil {
+			continue
+		}
+		// succNZ: successor index on which the subject is non-zero; -1 = not a zero test
+		succNZ := -1
+		cond := ifi.Cond
+		flip := false
+		for {
+			if u, ok := cond.(*ssa.UnOp); ok && u.Op == token.NOT {
+				cond, flip = u.X, !flip
+				continue
+			}
+			break
+		}
+		switch x := cond.(type) {
+		case *ssa.BinOp:
+			l, r := x.X, x.Y
+			switch {
+			case x.Op == token.EQL && (subject(l) && isZero(r) || subject(r) && isZero(l)):
+				succNZ = 1
+			case x.Op == token.NEQ && (subject(l) && isZero(r) || subject(r) && isZero(l)):
+				succNZ = 0
+			case x.Op == token.GTR && subject(l) && isZero(r), x.Op == token.LSS && isZero(l) && subject(r),
+				x.Op == token.GEQ && subject(l) && isOne(r), x.Op == token.LEQ && isOne(l) && subject(r):
+				succNZ = 0
+			case x.Op == token.LEQ && subject(l) && isZero(r), x.Op == token.GEQ && isZero(l) && subject(r),
+				x.Op == token.LSS && subject(l) && isOne(r), x.Op == token.GTR && isOne(l) && subject(r):
+				succNZ = 1
+			}
+		default:
+			if subject(cond) {
+				succNZ = 0
+			}
+		}
+		if succNZ < 0 {
+			continue
+		}
+		if flip {
+			succNZ = 1 - succNZ
+		}
+		if nonzero {
+			out = append(out, eng.Edge{From: b, Succ: succNZ})
+		} else {
+			out = append(out, eng.Edge{From: b, Succ: 1 - succNZ})
+		}
+	}
+	return out
+}
+
+// c11Web is a success accumulator of a function: a family of phis of a local
+// bool/int (a flag or a counter) that starts at false/0 and otherwise only
+// receives `true`, a non-zero constant or itself + a positive constant.
+type c11Web struct {
+	phis map[*ssa.Phi]bool
+	sets []ssa.Instruction // program points (terminators of the feeding blocks) of the non-zero assignments
+}
+
+func c11SuccessWebs(f *ssa.Function) []*c11Web {
+	parent := map[*ssa.Phi]*ssa.Phi{}
+	var find func(p *ssa.Phi) *ssa.Phi
+	find = func(p *ssa.Phi) *ssa.Phi {
+		if parent[p] == p {
+			return p
+		}
+		parent[p] = find(parent[p])
+		return parent[p]
+	}
+	var phis []*ssa.Phi
+	for _, b := range f.Blocks {
+		for _, in := range b.Instrs {
+			p, ok := in.(*ssa.Phi)
+			if !ok {
+				break
+			}
+			if bt, ok := p.Type().Underlying().(*types.Basic); ok && bt.Info()&(types.IsBoolean|types.IsInteger) != 0 {
+				phis = append(phis, p)
+				parent[p] = p
+			}
+		}
+	}
+	incOf := func(v ssa.Value) *ssa.Phi { // v = phi + positive const
+		bo, ok := v.(*ssa.BinOp)
+		if !ok || bo.Op != token.ADD {
+			return nil
+		}
+		p, ok := bo.X.(*ssa.Phi)
+		if !ok || parent[p] == nil {
+			return nil
+		}
+		if k, ok := bo.Y.(*ssa.Const); !ok || strings.HasPrefix(eng.Expr(k), "-") || eng.Expr(k) == "0" {
+			return nil
+		}
+		return p
+	}
+	for _, p := range phis {
+		for _, e := range p.Edges {
+			if q, ok := e.(*ssa.Phi); ok && parent[q] != nil {
+				parent[find(p)] = find(q)
+			} else if q := incOf(e); q != nil {
+				parent[find(p)] = find(q)
+			}
+		}
+	}
+	webs := map[*ssa.Phi]*c11Web{}
+	bad := map[*ssa.Phi]bool{}
+	for _, p := range phis {
+		r := find(p)
+		w := webs[r]
+		if w == nil {
+			w = &c11Web{phis: map[*ssa.Phi]bool{}}
+			webs[r] = w
+		}
+		w.phis[p] = true
+		for i, e := range p.Edges {
+			if q, ok := e.(*ssa.Phi); ok && parent[q] != nil {
+				continue
+			}
+			set := false
+			if k, ok := e.(*ssa.Const); ok {
+				s := eng.Expr(k)
+				if s == "0" || s == "false" {
+					continue
+				}
+				if strings.HasPrefix(s, "-") {
+					bad[r] = true
+					continue
+				}
+				set = true
+			} else if incOf(e) != nil {
+				set = true
+			}
+			if !set {
+				bad[r] = true
+				continue
+			}
+			pb := p.Block().Preds[i]
+			w.sets = append(w.sets, pb.Instrs[len(pb.Instrs)-1])
+		}
+	}
+	var out []*c11Web
+	for r, w := range webs {
+		if !bad[r] && len(w.sets) > 0 {
+			out = append(out, w)
+		}
+	}
+	sort.Slice(out, func(i, j int) bool { return out[i].sets[0].Pos() < out[j].sets[0].Pos() })
+	return out
+}
+
+// c11ForwardedRoots: a root that is result #i of a call to a function of the same package
+// is replaced by the roots of that function's i-th results (nil constants on its refusing
+// returns aside), one level deep — "the block was extracted into a helper".
+func c11ForwardedRoots(pkgOf *ssa.Function, r ssa.Value) ([]ssa.Value, bool) {
+	var cl *ssa.Call
+	idx := 0
+	switch x := r.(type) {
+	case *ssa.Extract:
+		cl, _ = x.Tuple.(*ssa.Call)
+		idx = x.Index
+	case *ssa.Call:
+		cl = x
+	}
+	if cl == nil {
+		return nil, false
+	}
+	g := cl.Call.StaticCallee()
+	if g == nil || g.Pkg == nil || g.Pkg != pkgOf.Pkg || len(g.Blocks) == 0 {
+		return nil, false
+	}
+	var out []ssa.Value
+	for _, ret := range eng.Returns(g) {
+		if idx >= len(ret.Results) {
+			return nil, false
+		}
+		vals, _, _ := eng.ReturnVals(ret, idx)
+		for _, v := range vals {
+			if v == nil || eng.IsNilConst(v) {
+				continue
+			}
+			out = append(out, eng.Roots(v, nil)...)
+		}
+	}
+	return out, len(out) > 0
+}
+
+// c11HashingHelpers: functions of f's package that f calls statically and that contain a call
+// matching pat (a sanitiser): candidates for "the sanitising block was extracted".
+func c11HashingHelpers(f *ssa.Function, pat string) map[*ssa.Function][]ssa.CallInstruction {
+	out := map[*ssa.Function][]ssa.CallInstruction{}
+	for _, b := range f.Blocks {
+		for _, in := range b.Instrs {
+			cl, ok := in.(*ssa.Call)
+			if !ok {
+				continue
+			}
+			g := cl.Call.StaticCallee()
+			if g == nil || g == f || g.Pkg == nil || g.Pkg != f.Pkg || len(g.Blocks) == 0 {
+				continue
+			}
+			if len(eng.Calls(g, pat)) > 0 {
+				out[g] = append(out[g], cl)
+			}
+		}
+	}
+	return out
 }
